@@ -133,7 +133,6 @@ func runC02(c *Ctx) {
 	}
 }
 
-
 // checkRollbackWalk: the store's rollback walks down over every block record at or above the target.
 func checkRollbackWalk(c *Ctx, rule string) {
 	// an iterator is repositioned at the record it is standing on (after nested cursors moved it away), not at some other
